@@ -50,18 +50,41 @@ def awaitsMate (a : Aln) : Bool :=
 def commonColumns (a b : Aln) : List (Nat × Nat) :=
   a.samPairs.filterMap (fun p => (b.samPairs.find? (fun p' => p'.2 == p.2)).map (fun p' => (p.1, p'.1)))
 
-/-- htslib `tweak_overlap_quality`, one column: equal bases → the first record gets the summed quality (capped at
-200) and the second 0; different bases → the better one keeps `0.8 · q` (truncated), the other gets 0 -/
-def tweakColumn (sa sb : List Char) (qs : List Nat × List Nat) (ij : Nat × Nat) : List Nat × List Nat :=
+/-- khash `__ac_X31_hash_string` of the read name (ASCII names) -/
+def x31Hash (s : String) : UInt32 :=
+  match s.toList.map (fun c => c.toNat.toUInt32) with
+  | [] => 0
+  | c :: t => t.foldl (fun h c => (h <<< 5) - h + c) c
+
+/-- khash `__ac_Wang_hash` -/
+def wangHash (k : UInt32) : UInt32 :=
+  let k := k + ~~~(k <<< 15)
+  let k := k ^^^ (k >>> 10)
+  let k := k + (k <<< 3)
+  let k := k ^^^ (k >>> 6)
+  let k := k + ~~~(k <<< 11)
+  k ^^^ (k >>> 16)
+
+/-- htslib picks "at random" (a hash of the read name) which record of an overlapping pair keeps the evidence:
+`true` = the record that arrived first -/
+def prefersFirst (qname : String) : Bool := (wangHash (x31Hash qname)) &&& 1 == 1
+
+/-- htslib `tweak_overlap_quality`, one column: equal bases → the preferred record gets the summed quality (capped at
+200) and the other 0; different bases → the better one keeps `0.8 · q` (truncated) and the other gets 0, a tie goes to
+the preferred record. (Exact for mates without D / N ops; htslib's treatment of deletions inside overlapping mates is
+not modelled.) -/
+def tweakColumn (pref : Bool) (sa sb : List Char) (qs : List Nat × List Nat) (ij : Nat × Nat) : List Nat × List Nat :=
   match sa[ij.1]?, sb[ij.2]?, qs.1[ij.1]?, qs.2[ij.2]? with
   | some ca, some cb, some x, some y =>
-    if ca = cb then (qs.1.set ij.1 (min 200 (x + y)), qs.2.set ij.2 0)
-    else if y ≤ x then (qs.1.set ij.1 (4 * x / 5), qs.2.set ij.2 0)
+    if ca = cb then
+      if pref then (qs.1.set ij.1 (min 200 (x + y)), qs.2.set ij.2 0)
+      else (qs.1.set ij.1 0, qs.2.set ij.2 (min 200 (x + y)))
+    else if y < x ∨ (x = y ∧ pref) then (qs.1.set ij.1 (4 * x / 5), qs.2.set ij.2 0)
     else (qs.1.set ij.1 0, qs.2.set ij.2 (4 * y / 5))
   | _, _, _, _ => qs
 
 def tweakPair (a b : Aln) : Aln × Aln :=
-  let qs := (commonColumns a b).foldl (tweakColumn a.seq b.seq) (a.qualList, b.qualList)
+  let qs := (commonColumns a b).foldl (tweakColumn (prefersFirst a.qname) a.seq b.seq) (a.qualList, b.qualList)
   ({ a with quals := some qs.1 }, { b with quals := some qs.2 })
 
 /-- state of the overlap hash while records are pushed: records so far (in order) and read name → index of the
